@@ -67,23 +67,22 @@ fn seam_selfcheck() -> Result<(), String> {
         return Ok(());
     }
     use world::{run_world, Mode, WorldSpec};
-    let mut spec = WorldSpec::new(props::c10::RAW_DEFS, "SELECT input FROM raw", Mode::FollowIter { head: false, cap: 8 });
-    spec.files.push((follow::FOLLOW_PATH.to_owned(), b"old\n".to_vec()));
-    spec.appends = vec![b"ab".to_vec(), b"c\nd".to_vec()];
+    // plain std operations (no sqlgrep code): every one of them must arrive at the seam
+    let mut spec = WorldSpec::new("", "", Mode::SeamProbe);
+    spec.files.push((follow::FOLLOW_PATH.to_owned(), b"first\nsecond line\n".to_vec()));
+    spec.appends = vec![b"third\n".to_vec()];
     let quiet = seam::Step { land: 0, fault: seam::Fault::None };
-    let one = seam::Step { land: 1, fault: seam::Fault::None };
-    spec.steps = vec![quiet.clone(), quiet.clone(), one.clone(), quiet, one];
-    spec.end_after_idle = Some(1);
+    spec.steps = vec![quiet.clone(), quiet.clone(), quiet.clone(), quiet];
     spec.keys = vec![[1u8; 16]];
     let res = run_world(&spec);
     let count = |k: seam::EvKind| res.log.iter().filter(|e| e.kind == k).count();
     if count(seam::EvKind::Open) != 1 {
         return Err(format!("expected 1 open event through the seam, saw {}", count(seam::EvKind::Open)));
     }
-    if count(seam::EvKind::Seek) < 1 {
-        return Err("lseek did not go through the seam".to_owned());
+    if count(seam::EvKind::Seek) < 2 {
+        return Err(format!("expected >= 2 lseek events through the seam, saw {}", count(seam::EvKind::Seek)));
     }
-    if count(seam::EvKind::Read) < 2 {
+    if count(seam::EvKind::Read) < 3 {
         return Err("reads did not go through the seam".to_owned());
     }
     if count(seam::EvKind::Close) != 1 {
@@ -92,15 +91,10 @@ fn seam_selfcheck() -> Result<(), String> {
     if res.getrandom_calls != 1 {
         return Err(format!("expected exactly 1 getrandom call for the thread's RandomState, saw {}", res.getrandom_calls));
     }
-    if res.delivered() != vec![b"abc".to_vec()] {
-        return Err(format!("self-check follower delivered {:?}", res.delivered()));
+    if res.delivered() != vec![b"first\n".to_vec(), b"second line\nthird\n".to_vec()] {
+        return Err(format!("std reads through the seam returned {:?}", res.delivered()));
     }
-    // stdout capture
-    let mut spec = WorldSpec::new(props::c10::RAW_DEFS, "SELECT input FROM raw", Mode::FollowExec { head: true });
-    spec.files.push((follow::FOLLOW_PATH.to_owned(), b"x\n".to_vec()));
-    spec.end_after_idle = Some(1);
-    let res = run_world(&spec);
-    if res.stdout != b"'x'\n" {
+    if res.stdout != b"probe\n" {
         return Err(format!("stdout capture saw {:?}", String::from_utf8_lossy(&res.stdout)));
     }
     Ok(())
